@@ -120,12 +120,27 @@ def _ufunc2d(a):
     return a[..., 1:-1, :-1] * 2.0 + a[..., :-2, :-1] - a[..., 2:, 1:]
 
 
-BW2D = {"sig-order": {"X": (1, 1), "Y": (0, 1)}, "reversed": {"Y": (0, 1), "X": (1, 1)}}
+def _ufunc2d_x(a):
+    # a halo along the first of the two signature axes only
+    return a[..., 1:-1, :] * 2.0 + a[..., :-2, :] - a[..., 2:, :]
+
+
+BW2D = {"sig-order": {"X": (1, 1), "Y": (0, 1)}, "reversed": {"Y": (0, 1), "X": (1, 1)}, "only-x": {"X": (1, 1)}}
+
+
+def _ufunc_io(a, b):
+    return a + 0.5 * (b[..., 1:] + b[..., :-1])
+
+
+def call_ufunc_io(g, da, eo, mo):
+    """two inputs, the second on the outer position: refused when chunked along the operated axis"""
+    return g.apply_as_grid_ufunc(_ufunc_io, da, eo, axis=[("X",), ("X",)], signature="(X:center),(X:outer)->(X:center)",
+                                 dask="allowed" if mo else "parallelized", map_overlap=mo)
 
 
 def call_ufunc2d(g, da, mo, kind):
     """a two-axis user ufunc with different total halo widths on the two axes; the widths listed in either order"""
-    return g.apply_as_grid_ufunc(_ufunc2d, da, axis=[("X", "Y")], signature="(X:center,Y:center)->(X:center,Y:center)",
+    return g.apply_as_grid_ufunc(_ufunc2d_x if kind == "only-x" else _ufunc2d, da, axis=[("X", "Y")], signature="(X:center,Y:center)->(X:center,Y:center)",
                                  boundary_width=dict(BW2D[kind]), boundary={"X": "fill", "Y": "extend"}, fill_value={"X": 3.0, "Y": 0.0},
                                  dask="allowed" if mo else "parallelized", map_overlap=mo)
 
@@ -234,7 +249,7 @@ def part_A(rec, tier, seed, fr, to, only=None):
                             ("cumsum", ["Y", "X"], dict(to="left")), ("interp", ["X", "Y"], dict(to="left", boundary="fill", fill_value=2.0)),
                             ("ufunc", "mo", {}), ("ufunc", "nomo", {})]
                     ops += [("multi", "1to2", {}), ("multi", "2to1", {})]
-                    ops += [("ufunc2d", "sig-order", {}), ("ufunc2d", "reversed", {})]
+                    ops += [("ufunc2d", "sig-order", {}), ("ufunc2d", "reversed", {}), ("ufunc2d", "only-x", {}), ("ufunc2d-par", "only-x", {}), ("ufunc-io", "mo", {})]
                     # user ufuncs whose halo is wider than some chunks
                     ops += [("wide", (wi, rule), {}) for wi in range(len(WIDE)) for rule in ("fill", "periodic", "extend")]
                 if fr != "center" and to == "center":
@@ -246,7 +261,7 @@ def part_A(rec, tier, seed, fr, to, only=None):
                         if only is not None and only != {k: v for k, v in case.items()} and only != dict(case, layout="x-first-float32") and only != dict(case, layout="dask-aux-coordinate") and not (op == "wide" and only == dict(case, axis=list(axis))):
                             continue
                         gg = glazy if lm else g
-                        chunked_axis = len(cx) > 1 if (axis == "X" or axis == "mo" or axis == "nomo" or op in ("wide", "ufunc2d") or (isinstance(axis, list) and "X" in axis)) else False
+                        chunked_axis = len(cx) > 1 if (axis == "X" or axis == "mo" or axis == "nomo" or op in ("wide", "ufunc2d", "ufunc2d-par", "ufunc-io") or (isinstance(axis, list) and "X" in axis)) else False
                         chunked_y = len(cy) > 1 and (axis == "Y" or (isinstance(axis, list) and "Y" in axis))
                         if op == "multi":
                             if len(cx) > 1:
@@ -261,6 +276,20 @@ def part_A(rec, tier, seed, fr, to, only=None):
                             eager = lambda: call_wide(gg, e_in, False, wi, wrule)
                             refuse = False
                             chunked_axis = len(cx) > 1
+                        elif op == "ufunc-io":
+                            eo_ = xr.DataArray(np.arange(2.0 * 2 * (N + 1)).reshape(2, 2, N + 1) * 0.5 - 3, dims=["t", "yc", POSD["outer"]])
+                            oc = {"t": ct, "yc": cy, POSD["outer"]: (tuple(cx[:-1]) + (cx[-1] + 1,))}
+                            build = lambda: call_ufunc_io(gg, e_in.chunk(chunks), eo_.chunk(oc), True)
+                            eager = lambda: call_ufunc_io(gg, e_in, eo_, False)
+                            # (with map_overlap=True requested the library refuses this signature whatever the chunking: allowed)
+                            refuse = True
+                            chunked_axis = True
+                        elif op == "ufunc2d-par":
+                            if len(cx) > 1 or len(cy) > 1:
+                                continue  # outside the statement: xarray refuses chunked core dims without map_overlap
+                            build = lambda: call_ufunc2d(gg, e_in.chunk(chunks), False, axis)
+                            eager = lambda: call_ufunc2d(gg, e_in, False, axis)
+                            refuse = False
                         elif op == "ufunc2d":
                             build = lambda: call_ufunc2d(gg, e_in.chunk(chunks), True, axis)
                             eager = lambda: call_ufunc2d(gg, e_in, False, axis)
@@ -276,7 +305,7 @@ def part_A(rec, tier, seed, fr, to, only=None):
                             eager = lambda: call(gg, op, e_in, axis, kw)
                             refuse = chunked_axis and io and op in REFUSABLE
                         anych = len(cx) > 1 or len(ct) > 1 or len(cy) > 1
-                        if op not in ("ufunc", "wide", "multi", "ufunc2d") and idx % 4 == 1:
+                        if op not in ("ufunc", "wide", "multi", "ufunc2d", "ufunc2d-par", "ufunc-io") and idx % 4 == 1:
                             # the operated dimension first, in single precision: neither the position of
                             # the core dimension among the others nor the dtype may matter
                             e_t = e_in.transpose(POSD[fr], "t", "yc").astype(np.float32)
@@ -284,14 +313,14 @@ def part_A(rec, tier, seed, fr, to, only=None):
                             build = lambda: call(gg, op, e_t.chunk(chunks), axis, kw)
                             eager = lambda: call(gg, op, e_t, axis, kw)
                         second = None
-                        if op not in ("ufunc", "wide", "multi", "ufunc2d") and idx % 6 == 2:
+                        if op not in ("ufunc", "wide", "multi", "ufunc2d", "ufunc2d-par", "ufunc-io") and idx % 6 == 2:
                             # the input carries a dask-backed 2-D auxiliary coordinate chunked differently from the data
                             aux = xr.DataArray(np.arange(2.0 * m).reshape(2, m), dims=["yc", POSD[fr]]).chunk({"yc": 1, POSD[fr]: m})
                             e_aux = e_in.assign_coords(aux=aux)
                             case = dict(case, layout="dask-aux-coordinate")
                             build = lambda: call(gg, op, e_in.chunk(chunks).assign_coords(aux=aux), axis, kw)
                             eager = lambda: call(gg, op, e_aux.compute(), axis, kw)
-                        if op not in ("ufunc", "wide", "multi", "ufunc2d") and idx % 3 == 0:
+                        if op not in ("ufunc", "wide", "multi", "ufunc2d", "ufunc2d-par", "ufunc-io") and idx % 3 == 0:
                             e2_in = (e_in * 3 + 1).rename("q2")
                             second = (lambda: call(gg, op, e2_in.chunk(chunks), axis, kw), lambda: call(gg, op, e2_in, axis, kw))
                         check_lazy(rec, "simple-grid", case, build, eager, refuse, anych,
